@@ -21,6 +21,9 @@ b_, a_, s_ = Int('b!s'), Int('a!s'), Int('s!s')
 def isC(b): return calls.inst_of(b, calls.C_class('CBlock'))
 
 
+def isS(b): return calls.inst_of(b, calls.C_class('SBlock'))
+
+
 def consistent(out, b): return py_eq(out[b], calc(b, out))
 
 
@@ -61,7 +64,8 @@ def delivery_step(st, q, out1):
     st.assume(ForAll([b_], Implies(isC(b_), out2[b_] == out1[b_])),
               ForAll([b_], Implies(out2[b_] != out1[b_], qq2[b_])),
               ForAll([b_], Implies(q1[q][b_], qq2[b_])),
-              ForAll([b_], Implies(qq2[b_], Or(q1[q][b_], Not(isC(b_))))))      # only sequential blocks are ever queued
+              ForAll([b_], Implies(qq2[b_], Or(q1[q][b_], Not(isC(b_))))),      # only sequential blocks are ever queued
+              ForAll([b_], Implies(out1[b_] != Val.Undef, out2[b_] != Val.Undef)))   # no output returns to UNDEF (set_output refuses it, C02)
     note_out(st)
 
 
@@ -108,6 +112,8 @@ def await_queue_get(ex, node, st):
     out = st.comp('_output', Val)
     idle = ForAll([b_], Implies(isC(b_), consistent(out, b_)))
     ex.oblige('await:idle_implies_every_cblock_consistent', st, idle, kind='code')
+    # (C05) at every suspension point of the simulation every block has an output: part of the cross-task invariant J
+    ex.oblige('await:every_block_has_an_output_when_idle', st, ForAll([b_], Implies(Or(isC(b_), isS(b_)), out[b_] != Val.Undef)), kind='code')
     st = st.copy(); st.assume(idle)            # proved just above: available from here on
     s2 = st.copy()
     delivery_step(s2, q, out)
@@ -191,6 +197,7 @@ def INV(lc):
     n = st.ghost['nblocks']
     return [('stale_blocks_are_scheduled', ForAll([b_], Implies(isC(b_), Or(es[b_], Exists([s_], And(qs[s_], feeds(s_, b_))), consistent(out, b_))))),
             ('only_cblocks_in_eval_set', ForAll([b_], Implies(es[b_], isC(b_)))),
+            ('every_block_has_an_output_or_is_scheduled', ForAll([b_], Implies(Or(isC(b_), isS(b_)), Or(And(isC(b_), es[b_]), out[b_] != Val.Undef)))),
             ('burst_counter', And(st.ghost['burst'] == cnt, cnt >= 0, cnt <= lim, lim == 3 * n)),
             ('queue_is_the_circuit_queue', st.readz('sblock_queue', me) == lc.pre.f('sblock_queue', me))]
 
@@ -200,6 +207,7 @@ def _simulate(c):
     me = c.z('self')
     n = c.S.g('nblocks')
     c.requires('block_count', n >= 0)
+    c.requires('sequential_blocks_are_initialised', ForAll([b_], Implies(isS(b_), c.pre_whole('_output')[b_] != Val.Undef)))
     c.raises('CancelledError', unchanged=False, label='runs_until_cancelled')
     c.raises('EdzedCircuitError', unchanged=False, label='instability_only_after_the_evaluation_limit',
              ensures=lambda post, exc: [post.g('burst') == 3 * n])
